@@ -1,7 +1,8 @@
 (* C20 - Spatio-temporal constraints are a pure, monotone filter on candidate pairs.
    Property theorems only; proofs live in Proofs/ConstraintsProofs.v. *)
 From Coq Require Import List NArith QArith Bool.
-From Similari Require Import Base.Num Model.Constraints Proofs.ConstraintsProofs.
+From Similari Require Import Base.Num Model.Constraints Proofs.ConstraintsProofs Proofs.DistProofs.
+From SimilariGen Require Import Consts Scalar ScalarBox.
 Import ListNotations.
 
 (* For every configuration history [adds] (any number of add_constraints calls, any lengths, repeated gaps
@@ -43,6 +44,25 @@ Proof. exact add_nonpositive_panics. Qed.
 Theorem add_accepts_positive :
   forall t cs, (forall e, In e cs -> (0 < snd e)%Q) -> exists t', add_constraints t cs = Some t'.
 Proof. exact add_positive_ok. Qed.
+
+(* The distance handed to validate by the trackers (Universal2DBox::dist_in_2r, translated from the source on every
+   run; squared, the two bounding radii being inputs since get_radius takes a square root): the squared centre
+   distance in units of the squared SUM OF THE TWO RADII (plus EPS), symmetric in the two boxes. *)
+Theorem dist_in_2r_is_centre_distance_over_radius_sum :
+  forall (l r : Universal2DBox Qops) (rl rr : Q),
+    (ubox_dist_in_2r_sq_r Qops l r rl rr ==
+     ((cx l - cx r) * (cx l - cx r) + (cy l - cy r) * (cy l - cy r)) / ((rl + rr) * (rl + rr) + EPS))%Q.
+Proof. exact dist_in_2r_sq_formula. Qed.
+
+Theorem dist_in_2r_symmetric :
+  forall (l r : Universal2DBox Qops) (rl rr : Q),
+    (ubox_dist_in_2r_sq_r Qops l r rl rr == ubox_dist_in_2r_sq_r Qops r l rr rl)%Q.
+Proof. exact dist_in_2r_sq_sym. Qed.
+
+Theorem dist_in_2r_zero_iff_same_centre :
+  forall (l r : Universal2DBox Qops) (rl rr : Q), (0 <= rl)%Q -> (0 <= rr)%Q ->
+    ((ubox_dist_in_2r_sq_r Qops l r rl rr == 0)%Q <-> (cx l == cx r /\ cy l == cy r)%Q).
+Proof. exact dist_in_2r_sq_zero_iff_same_centre. Qed.
 
 (* Non-vacuity: the repository's own unit-test table, built by two calls with repeated gaps. *)
 Example c20_nonvacuous :
